@@ -814,6 +814,19 @@ func (c *EvalCtx) call(n *Node) Val {
 			}
 		}
 		return mkInt(cnt)
+	case "pure_result":
+		// pure_result("(*T).Method", arg...): the unknown-but-deterministic string a
+		// function used through `option pure` returns for these arguments
+		nm, _ := arg(0).(Text).concrete()
+		var parts []string
+		for k := 1; k < len(n.Kids); k++ {
+			t, ok := arg(k).(Text)
+			if !ok {
+				specErr(n, "pure_result: string arguments expected")
+			}
+			parts = append(parts, t.String())
+		}
+		return atom(pureAtomName(nm, parts))
 	case "call_arg":
 		// call_arg("callee", k): the k-th argument (receiver first) of the last call of
 		// the callee that was answered by its contract on this path
